@@ -1,7 +1,7 @@
 """Side-car contracts, one module per property.  registry() -> {unit name: Unit}."""
 import importlib
 
-MODULES = ['core', 'C04', 'dist', 'C17', 'C16', 'C19', 'C15', 'C05']
+MODULES = ['core', 'C04', 'dist', 'C17', 'C16', 'C19', 'C15', 'C05', 'C08']
 _reg = None
 
 
@@ -18,10 +18,21 @@ def registry():
 
 
 def extras(prop, tier, crate, seed):
+    """engines other than Verus: NRA side lemmas of the property's units (z3 + cvc5), bounded Kani harnesses"""
+    from vc import nra
+    out = []
+    reg = registry()
+    seen = set()
+    for u in reg.values():
+        if prop in u.props:
+            for lem in u.nra:
+                if lem.name not in seen:
+                    seen.add(lem.name)
+                    out.append(nra.discharge(lem))
     try:
         mod = importlib.import_module('contracts.' + prop)
+        if hasattr(mod, 'extras'):
+            out += mod.extras(tier, crate, seed)
     except ImportError:
-        return []
-    if hasattr(mod, 'extras'):
-        return mod.extras(tier, crate, seed)
-    return []
+        pass
+    return out
